@@ -7,6 +7,14 @@
  *   condvar_rt gate K ROUNDS [u]        K waiters block on a flag; ONE broadcast must release all (u: issued after unlocking the mutex)
  *   condvar_rt trylock ROUNDS           a woken waiter, still inside its post-wait critical section,
  *                                       has another thread call p_mutex_trylock: it must fail
+ *   condvar_rt rebind ROUNDS            ONE condition variable used with mutex A in even rounds and mutex B in odd
+ *                                       rounds (legal: every wait of a round has returned before the next one starts)
+ *   condvar_rt pairs K ROUNDS           K independent monitors (own mutex + own condition variable each) run
+ *                                       ping-pong exchanges at the same time: no monitor may disturb another
+ *   pc / ec take a trailing `u`: the signal / broadcast is issued AFTER unlocking the mutex (legal)
+ *
+ * Every critical section also counts the threads inside it (`in_cs`): a wait that returns without the
+ * mutex, or a mutex shared by mistake, shows as two threads inside.
  *
  * One-sided oracles only: every item consumed exactly once, production order = consumption order
  * (both logged under the mutex), 0 <= count <= C at every access, no thread stuck (watchdog).
@@ -41,6 +49,13 @@ static void on_alarm (int sig) {
 
 #define CK(x) do { if ((x) != TRUE) fail ("library call returned FALSE: " #x); } while (0)
 
+/* threads inside the critical section of `mx` (relaxed atomics: no synchronisation is added for TSan) */
+static int in_cs;
+static void cs_enter (int *c) { if (__atomic_fetch_add (c, 1, __ATOMIC_RELAXED) != 0) fail ("two threads are inside the critical section of one mutex (lock or wait returned without owning it)"); }
+static void cs_leave (int *c) { __atomic_fetch_sub (c, 1, __ATOMIC_RELAXED); }
+static pboolean cs_wait (PCondVariable *c, PMutex *m, int *cnt) { pboolean r; cs_leave (cnt); r = p_cond_variable_wait (c, m); cs_enter (cnt); return r; }
+static int notify_unlocked;        /* pc / ec: issue the wake-up after p_mutex_unlock */
+
 /* ---------------------------------------------------------------- bounded buffer */
 static int cap, bcast, items_per_producer;
 static long *ring; static int head, count;
@@ -54,18 +69,20 @@ static void *producer (void *arg) {
 	for (int k = 0; k < items_per_producer; ++k) {
 		long item = id * 1000000L + k;
 		CK (p_mutex_lock (mx));
+		cs_enter (&in_cs);
 		int first = 1;
 		while (count == cap) {
 			if (!first) wakeups_without_progress++;
 			first = 0;
-			CK (p_cond_variable_wait (not_full, mx));
+			CK (cs_wait (not_full, mx, &in_cs));
 		}
 		if (count < 0 || count >= cap) fail ("buffer count out of bounds at put");
 		ring[(head + count) % cap] = item;
 		count++;
 		prod_log[nprod++] = item;
-		notify (not_empty);
-		CK (p_mutex_unlock (mx));
+		cs_leave (&in_cs);
+		if (notify_unlocked) { CK (p_mutex_unlock (mx)); notify (not_empty); }
+		else { notify (not_empty); CK (p_mutex_unlock (mx)); }
 	}
 	return NULL;
 }
@@ -74,19 +91,21 @@ static void *consumer (void *arg) {
 	long want = (long) arg;
 	for (long k = 0; k < want; ++k) {
 		CK (p_mutex_lock (mx));
+		cs_enter (&in_cs);
 		int first = 1;
 		while (count == 0) {
 			if (!first) wakeups_without_progress++;
 			first = 0;
-			CK (p_cond_variable_wait (not_empty, mx));
+			CK (cs_wait (not_empty, mx, &in_cs));
 		}
 		if (count <= 0 || count > cap) fail ("buffer count out of bounds at take");
 		long item = ring[head];
 		head = (head + 1) % cap;
 		count--;
 		cons_log[ncons++] = item;
-		notify (not_full);
-		CK (p_mutex_unlock (mx));
+		cs_leave (&in_cs);
+		if (notify_unlocked) { CK (p_mutex_unlock (mx)); notify (not_full); }
+		else { notify (not_full); CK (p_mutex_unlock (mx)); }
 	}
 	return NULL;
 }
@@ -117,7 +136,7 @@ static int run_pc (int n, int m, int c, int items, int bc) {
 		if (p < 0 || p >= n || k != next[p]) fail ("item consumed twice, skipped or out of per-producer order");
 		next[p]++;
 	}
-	printf ("ok pc exchanged=%ld rewaits=%ld\n", total, wakeups_without_progress);
+	printf ("ok pc exchanged=%ld rewaits=%ld%s\n", total, wakeups_without_progress, notify_unlocked ? " notify-outside-mutex" : "");
 	free (ring); free (prod_log); free (cons_log); free (tp); free (tc); free (next);
 	return 0;
 }
@@ -129,9 +148,11 @@ static void *signaller (void *arg) {
 	(void) arg;
 	for (long k = 0; k < ev_per_signaller; ++k) {
 		CK (p_mutex_lock (mx));
+		cs_enter (&in_cs);
 		events++;
-		CK (p_cond_variable_signal (cv));
-		CK (p_mutex_unlock (mx));
+		cs_leave (&in_cs);
+		if (notify_unlocked) { CK (p_mutex_unlock (mx)); CK (p_cond_variable_signal (cv)); }
+		else { CK (p_cond_variable_signal (cv)); CK (p_mutex_unlock (mx)); }
 	}
 	return NULL;
 }
@@ -140,10 +161,12 @@ static void *waiter (void *arg) {
 	long want = (long) arg;
 	for (long k = 0; k < want; ++k) {
 		CK (p_mutex_lock (mx));
+		cs_enter (&in_cs);
 		while (events == consumed_ev)
-			CK (p_cond_variable_wait (cv, mx));
+			CK (cs_wait (cv, mx, &in_cs));
 		if (consumed_ev > events) fail ("consumed more events than were signalled");
 		consumed_ev++;
+		cs_leave (&in_cs);
 		CK (p_mutex_unlock (mx));
 	}
 	return NULL;
@@ -162,7 +185,7 @@ static int run_ec (int w, int s, int ev) {
 	for (int i = 0; i < s; ++i) pthread_join (ts[i], NULL);
 	for (int i = 0; i < w; ++i) pthread_join (tw[i], NULL);
 	if (events != tot || consumed_ev != tot) fail ("event counts do not match at the end");
-	printf ("ok ec events=%ld\n", tot);
+	printf ("ok ec events=%ld%s\n", tot, notify_unlocked ? " signal-outside-mutex" : "");
 	free (tw); free (ts);
 	return 0;
 }
@@ -174,12 +197,14 @@ static void *gate_waiter (void *arg) {
 	long rounds = (long) arg;
 	for (long r = 0; r < rounds; ++r) {
 		CK (p_mutex_lock (mx));
+		cs_enter (&in_cs);
 		gate_waiting++;
 		CK (p_cond_variable_signal (not_full));          /* tell the opener */
 		while (gate_round == r)
-			CK (p_cond_variable_wait (cv, mx));
+			CK (cs_wait (cv, mx, &in_cs));
 		gate_passed++;
 		CK (p_cond_variable_signal (not_full));
+		cs_leave (&in_cs);
 		CK (p_mutex_unlock (mx));
 	}
 	return NULL;
@@ -271,6 +296,96 @@ static int run_trylock (int rounds) {
 	return 0;
 }
 
+/* ---------------------------------------------------------------- rebind: one condition variable, two mutexes in turn */
+static PMutex *mxs[2];
+static int rb_waiting, rb_flag, rb_seen, rb_cs[2];
+
+static void *rb_waiter (void *arg) {
+	long rounds = (long) arg;
+	for (long r = 0; r < rounds; ++r) {
+		PMutex *m = mxs[r & 1];
+		CK (p_mutex_lock (m));
+		cs_enter (&rb_cs[r & 1]);
+		rb_waiting = (int) r + 1;
+		while (rb_flag <= r)
+			CK (cs_wait (cv, m, &rb_cs[r & 1]));          /* must release THIS round's mutex and come back owning it */
+		rb_seen = (int) r + 1;
+		cs_leave (&rb_cs[r & 1]);
+		CK (p_mutex_unlock (m));
+	}
+	return NULL;
+}
+
+static int run_rebind (int rounds) {
+	pthread_t w;
+	mxs[0] = mx; mxs[1] = p_mutex_new ();
+	if (!mxs[1]) fail ("constructor returned NULL");
+	if (pthread_create (&w, NULL, rb_waiter, (void *) (long) rounds)) fail ("pthread_create");
+	for (int r = 0; r < rounds; ++r) {
+		PMutex *m = mxs[r & 1];
+		for (;;) {                                       /* until the waiter of this round is inside wait (it released m) */
+			CK (p_mutex_lock (m));
+			if (rb_waiting == r + 1) break;
+			CK (p_mutex_unlock (m));
+			sched_yield ();
+		}
+		cs_enter (&rb_cs[r & 1]);
+		rb_flag = r + 1;
+		cs_leave (&rb_cs[r & 1]);
+		CK (p_cond_variable_signal (cv));
+		CK (p_mutex_unlock (m));
+		for (;;) {                                       /* the wait of this round has returned before the other mutex is used */
+			CK (p_mutex_lock (m));
+			int ok = rb_seen == r + 1;
+			CK (p_mutex_unlock (m));
+			if (ok) break;
+			sched_yield ();
+		}
+	}
+	pthread_join (w, NULL);
+	p_mutex_free (mxs[1]);
+	printf ("ok rebind rounds=%d\n", rounds);
+	return 0;
+}
+
+/* ---------------------------------------------------------------- pairs: K independent monitors at the same time */
+#define MAXPAIRS 64
+static struct { PMutex *m; PCondVariable *c; long ball; int cs; long rounds; } pr[MAXPAIRS];
+
+/* player 0 moves when the ball is even, player 1 when it is odd; each move is one signal */
+static void *pair_player (void *arg) {
+	long id = (long) arg, k = id / 2, me = id % 2;
+	for (long r = 0; r < pr[k].rounds; ++r) {
+		CK (p_mutex_lock (pr[k].m));
+		cs_enter (&pr[k].cs);
+		while ((pr[k].ball & 1) != me)
+			CK (cs_wait (pr[k].c, pr[k].m, &pr[k].cs));
+		pr[k].ball++;
+		cs_leave (&pr[k].cs);
+		if (r & 1) { CK (p_cond_variable_signal (pr[k].c)); CK (p_mutex_unlock (pr[k].m)); }
+		else { CK (p_mutex_unlock (pr[k].m)); CK (p_cond_variable_broadcast (pr[k].c)); }
+	}
+	return NULL;
+}
+
+static int run_pairs (int k, int rounds) {
+	pthread_t t[2 * MAXPAIRS];
+	if (k < 1 || k > MAXPAIRS) fail ("pairs: 1..64");
+	for (int i = 0; i < k; ++i) {
+		pr[i].m = p_mutex_new (); pr[i].c = p_cond_variable_new (); pr[i].rounds = rounds;
+		if (!pr[i].m || !pr[i].c) fail ("constructor returned NULL");
+	}
+	for (long i = 0; i < 2 * k; ++i)
+		if (pthread_create (&t[i], NULL, pair_player, (void *) i)) fail ("pthread_create");
+	for (int i = 0; i < 2 * k; ++i) pthread_join (t[i], NULL);
+	for (int i = 0; i < k; ++i) {
+		if (pr[i].ball != 2L * rounds) fail ("a monitor lost or gained moves");
+		p_cond_variable_free (pr[i].c); p_mutex_free (pr[i].m);
+	}
+	printf ("ok pairs monitors=%d rounds=%d\n", k, rounds);
+	return 0;
+}
+
 int main (int argc, char **argv) {
 	if (argc < 2) return 2;
 	for (int i = 1; i < argc && strlen (desc) + strlen (argv[i]) + 2 < sizeof desc; ++i) { strcat (desc, argv[i]); strcat (desc, " "); }
@@ -281,11 +396,14 @@ int main (int argc, char **argv) {
 	mx = p_mutex_new (); not_empty = p_cond_variable_new (); not_full = p_cond_variable_new (); cv = p_cond_variable_new ();
 	if (!mx || !not_empty || !not_full || !cv) fail ("constructor returned NULL");
 	int rc = 2;
+	if (argc > 2 && !strcmp (argv[argc - 1], "u") && (!strcmp (argv[1], "pc") || !strcmp (argv[1], "ec"))) { notify_unlocked = 1; argc--; }
 	if (!strcmp (argv[1], "pc") && argc == 7) rc = run_pc (atoi (argv[2]), atoi (argv[3]), atoi (argv[4]), atoi (argv[5]), atoi (argv[6]));
 	else if (!strcmp (argv[1], "ec") && argc == 5) rc = run_ec (atoi (argv[2]), atoi (argv[3]), atoi (argv[4]));
 	else if (!strcmp (argv[1], "gate") && argc == 4) rc = run_gate (atoi (argv[2]), atoi (argv[3]), 0);
 	else if (!strcmp (argv[1], "gate") && argc == 5 && !strcmp (argv[4], "u")) rc = run_gate (atoi (argv[2]), atoi (argv[3]), 1);
 	else if (!strcmp (argv[1], "trylock") && argc == 3) rc = run_trylock (atoi (argv[2]));
+	else if (!strcmp (argv[1], "rebind") && argc == 3) rc = run_rebind (atoi (argv[2]));
+	else if (!strcmp (argv[1], "pairs") && argc == 4) rc = run_pairs (atoi (argv[2]), atoi (argv[3]));
 	else { printf ("usage\n"); return 2; }
 	p_cond_variable_free (cv); p_cond_variable_free (not_full); p_cond_variable_free (not_empty); p_mutex_free (mx);
 	fflush (stdout);
